@@ -119,12 +119,12 @@ Qed.
 Example prop_check_Z_example :
   prop_check_Z 2 3 [[0;1;5];[0;2;5]] [[1;0;0];[0;0;2]] [[true;true;true];[true;true;true]]
                [[1;1;2];[1;2;2]] [[0;15;1];[1;15;0]]
-               [((0,1),(0,0)); ((1,0),(0,0)); ((0,2),(1,2)); ((1,1),(1,2))] = true.
+               [(((0,1),(0,0)),1); (((1,0),(0,0)),1); (((0,2),(1,2)),2); (((1,1),(1,2)),2)] = true.
 Proof. vm_compute. reflexivity. Qed.
 
 (* (2) binary64: the same scene as bit patterns, weight 0, output of the real code *)
 Example prop_check_b64_example :
   prop_check_b64 2 3 (map (map float_of_bits) [[0;4607182418800017408;4617315517961601024];[0;4611686018427387904;4617315517961601024]]) [[1;0;0];[0;0;2]] [[true;true;true];[true;true;true]]
                  (float_of_bits 0) [[1;1;2];[1;2;2]] [[0;4624633867356078080;4607182418800017408];[4607182418800017408;4624633867356078080;0]]
-                 [((0,1),(0,0)); ((1,0),(0,0)); ((0,2),(1,2)); ((1,1),(1,2))] = true.
+                 [(((0,1),(0,0)),1); (((1,0),(0,0)),1); (((0,2),(1,2)),2); (((1,1),(1,2)),2)] = true.
 Proof. vm_compute. reflexivity. Qed.
